@@ -21,7 +21,10 @@ def cases(tier):
         rnd = random.Random(SEED[0] * 7919 + len(L))
         pairs = [(a, b) for a in range(ns) for b in range(ns)]
         if ns > 10: pairs = rnd.sample(pairs, 40)        # all ordered pairs up to 10 states, a seeded sample beyond
-        if fam == 'fw5' and tier == 'quick': pairs = rnd.sample(pairs, 16)
+        if tier == 'quick':                              # quick: the 5- and 7-state fixtures in full, a seeded sample of the larger ones
+            if fam == 'fw5': pairs = rnd.sample(pairs, 16)
+            if fam == 'f10': pairs = rnd.sample(pairs, 36) + [(6, 5), (1, 7)]
+            if fam == 'foroot': pairs = rnd.sample(pairs, 24)
         for a, b in pairs:               # batch of two queued requests: kinds symbolic, destinations case-split
             L.append(fsm_case('C02', fx, 'batch2_d%d_d%d' % (a, b), base + ['ENTRY=3', 'NREQ=2', 'EXT_KINDS=0x9e', 'DEST0=%d' % a, 'DEST1=%d' % b], timeout=900 * T, witness=False))
         if tier == 'thorough' and fx['T'].nc >= 3:
